@@ -461,7 +461,11 @@ namespace ST
 
         char out_buffer[64];
         int format_size = snprintf(out_buffer, sizeof(out_buffer), format_buffer, value);
-        ST_ASSERT(format_size > 0, "Your libc doesn't support reporting format size");
+        if (format_size <= 0) {
+            // snprintf can't report a length above INT_MAX, which a huge
+            // precision like {.2147483647f} asks for
+            throw ST::bad_format("Floating-point precision is too large");
+        }
 
         const char *out_text = out_buffer;
         ST::char_buffer big_buffer;
